@@ -1476,10 +1476,18 @@ func parseListLevel(s string) int {
 	for _, c := range s {
 		if c >= '0' && c <= '9' {
 			level = level*10 + int(c-'0')
+			// WordprocessingML defines list levels 0-8; the value is used as
+			// an indentation count, so an absurd number must not get through.
+			if level > maxListLevel {
+				return maxListLevel
+			}
 		}
 	}
 	return level
 }
+
+// maxListLevel is the deepest list level of WordprocessingML (w:ilvl 0-8).
+const maxListLevel = 8
 
 // Lists returns all parsed lists from the document.
 func (r *Reader) Lists() []ParsedList {
